@@ -884,6 +884,9 @@ class GraphProcessor:
                 graph_instance, sel_choice_opt_idx, sel_choice_is_active, i_comb = self._hierarchy_analyzer.get_graph(
                     sel_choice_opt_idx, mask=self._existence_mask, is_fixed=is_fixed, exclude=self._excluded_cache)
 
+                # The analyzer caches the graphs it creates: never hand out the cached object itself
+                graph_instance = graph_instance.copy()
+
         except RuntimeError:
             print(f'Error occurred while getting graph for DV: {des_var_values}')
             raise
